@@ -1044,6 +1044,58 @@ func (g *gen) supScenario() [][]Action {
 	return scripts
 }
 
+// event-stream scenario (C19): several subscribers and publishers, two event types, subscribe twice,
+// unsubscribe / unsubscribe-all, subscribers dying and restarting in between
+func (g *gen) streamScenario() [][]Action {
+	g.names = nil
+	ty := func() uint64 { return uint64(100 + g.r.Intn(2)) }
+	sub := func(name uint64) *Spec {
+		sp := &Spec{Name: name, Prelaunch: true, Provider: g.r.Bool()}
+		for i := 0; i < 1+g.r.Intn(3); i++ {
+			sp.Launch = append(sp.Launch, Action{K: aSub, Ty: ty()})
+		}
+		return sp
+	}
+	parent := &Spec{Name: 1, Prelaunch: true, Strategy: 1, Decisions: []int{1, 5, 1}}
+	n := 2 + g.r.Intn(3)
+	for i := 1; i <= n; i++ {
+		parent.Launch = append(parent.Launch, Action{K: aSpawn, Spec: sub(uint64(i))})
+	}
+	msg := func(target uint64) Action {
+		var acts []Action
+		for i := 0; i < 1+g.r.Intn(3); i++ {
+			switch g.r.Intn(8) {
+			case 0, 1, 2:
+				acts = append(acts, Action{K: aPub, Ty: ty(), Payload: uint64(g.r.Intn(90))})
+			case 3:
+				acts = append(acts, Action{K: aSub, Ty: ty()})
+			case 4:
+				acts = append(acts, Action{K: aUnsub, Ty: ty()})
+			case 5:
+				acts = append(acts, Action{K: aUnsubAll})
+			case 6:
+				acts = append(acts, Action{K: aPanic})
+			case 7:
+				acts = append(acts, Action{K: aKill, R: RX{K: 0}, Poison: g.r.Bool()})
+			}
+		}
+		return Action{K: aTell, R: RX{K: 4, P: []uint64{1, target}}, Tag: g.tag(), Acts: acts}
+	}
+	main := []Action{{K: aSpawn, Spec: parent}}
+	for i := 0; i < 4+g.r.Intn(8); i++ {
+		main = append(main, msg(uint64(1+g.r.Intn(n))))
+	}
+	scripts := [][]Action{main}
+	if g.r.Bool() {
+		var second []Action
+		for i := 0; i < 2+g.r.Intn(4); i++ {
+			second = append(second, msg(uint64(1+g.r.Intn(n))))
+		}
+		scripts = append(scripts, second)
+	}
+	return scripts
+}
+
 // all user-message tags a scenario can send
 func collectTags(as []Action, out map[uint64]bool) {
 	for _, a := range as {
@@ -1154,6 +1206,42 @@ func (h *H) monitors(scripts [][]Action, res result, in lib.T) {
 			}
 		}
 	}
+	// ---- C19: an event type is only ever delivered to actors whose scripts subscribe to it (nobody else)
+	subscribedEver := map[string]map[uint64]bool{}
+	var walk func(path string, as []Action)
+	walk = func(path string, as []Action) {
+		for _, a := range as {
+			switch a.K {
+			case aSub:
+				if subscribedEver[path] == nil {
+					subscribedEver[path] = map[uint64]bool{}
+				}
+				subscribedEver[path][a.Ty] = true
+			case aTell, aTellSelf:
+				// the script runs at whoever receives it: conservatively attribute subscriptions to every path
+				walk("*", a.Acts)
+			case aSpawn:
+				child := strings.TrimSuffix(path, "/") + fmt.Sprintf("/a%d", a.Spec.Name)
+				if path == "*" {
+					child = "*"
+				}
+				walk(child, a.Spec.Launch)
+				walk(child, a.Spec.Kill)
+				walk(child, a.Spec.Killed)
+			}
+		}
+	}
+	for _, sc := range scripts {
+		walk("", sc)
+	}
+	for _, s := range res.seens {
+		if s.kind == 11 {
+			ok := subscribedEver[s.who.path][s.tag] || subscribedEver["*"][s.tag]
+			if !ok {
+				h.o.Monitor("c19-delivered-to-non-subscriber", in, fmt.Sprintf("%v received an event of type %d it never subscribed to", s.who, s.tag))
+			}
+		}
+	}
 	// ---- C06: an actor is reported terminated at most once to its parent; exactly once if it is released
 	killedSeenBy := map[string]map[string]int{} // dead path -> observer path -> count (per generation impossible to tell: count per (observer key))
 	for _, s := range res.seens {
@@ -1240,9 +1328,12 @@ func main() {
 	g := &gen{r: r}
 	for i := 0; i < n; i++ {
 		var sc [][]Action
-		if i%2 == 1 {
+		switch i % 5 {
+		case 1, 3:
 			sc = g.supScenario()
-		} else {
+		case 4:
+			sc = g.streamScenario()
+		default:
 			sc = g.scenario()
 		}
 		rr := r.Fork()
